@@ -107,6 +107,18 @@ func (s *Sandbox) Run(goit string, argv []string, o RunOpts) *Result {
 	defer os.Remove(outPath)
 	defer os.Remove(errPath)
 
+	// Safety net: goit runs with the harness's privileges and follows any path it is given (`add /x` followed by
+	// `rm` deletes /x). An absolute argument must lie inside this sandbox or beneath a directory that does not exist.
+	for _, a := range argv {
+		if filepath.IsAbs(a) && !strings.HasPrefix(filepath.Clean(a), s.Root+string(filepath.Separator)) && filepath.Clean(a) != s.Root {
+			top := "/" + strings.SplitN(strings.TrimPrefix(filepath.Clean(a), "/"), "/", 2)[0]
+			if _, err := os.Lstat(top); err == nil || top == "/" {
+				fo.Close()
+				fe.Close()
+				return &Result{Exit: -2, Stderr: []byte("harness: refused to run goit with an absolute path outside the sandbox: " + a)}
+			}
+		}
+	}
 	cmd := exec.Command(goit, argv...)
 	cmd.Dir = s.W()
 	if o.Dir != "" {
@@ -277,6 +289,12 @@ func (s *Sandbox) Snapshot() *Snap {
 			case fi.Mode()&os.ModeSymlink != 0:
 				t, _ := os.Readlink(p)
 				sn.Odd[rel] = "symlink -> " + t
+				// what a reader finds through the link (a linked config file is still the config)
+				if ti, err := os.Stat(p); err == nil && ti.Mode().IsRegular() {
+					if b, err := os.ReadFile(p); err == nil {
+						sn.Files[rel] = b
+					}
+				}
 			default:
 				sn.Odd[rel] = fi.Mode().String()
 			}
@@ -356,6 +374,9 @@ func (s *Sandbox) Restore(sn *Snap) error {
 		}
 	}
 	for f, b := range sn.Files {
+		if strings.HasPrefix(sn.Odd[f], "symlink -> ") {
+			continue // the bytes behind a link are restored under the name of the file the link names
+		}
 		p := filepath.Join(s.Root, f)
 		if err := os.MkdirAll(filepath.Dir(p), 0o777); err != nil {
 			return err
